@@ -53,17 +53,25 @@ var valRePool = []rePoolEntry{
 	{bluemonday.Number, []string{"1", "-1.5", "+2e3"}, []string{"", "e", "1,0"}},
 	{regexp.MustCompile(`^(nofollow|noopener|noreferrer| )*$`), []string{"", "nofollow", "nofollow noopener"}, []string{"x", "nofollowx"}},
 	{regexp.MustCompile(`^_(blank|self)$`), []string{"_blank", "_self"}, []string{"", "blank", "_top"}},
+	// pure literals: fully anchored, \A..\z anchored, and unanchored
+	{regexp.MustCompile(`^_blank$`), []string{"_blank"}, []string{"", "my_blank_frame", "_blankx", "x_blank"}},
+	{regexp.MustCompile(`\Artl\z`), []string{"rtl"}, []string{"", "xrtlx", "rtl ", "RTL"}},
+	{regexp.MustCompile(`nofollow`), []string{"nofollow", "xnofollowx"}, []string{"", "nofollo"}},
+	{regexp.MustCompile(`^(?:abc)$`), []string{"abc"}, []string{"", "abcabc", "xabcx"}},
 }
 
 var elRePool = []*regexp.Regexp{
 	regexp.MustCompile(`^my-`), regexp.MustCompile(`-y$`), regexp.MustCompile(`^x-`), regexp.MustCompile(`^h[1-6]$`),
 	regexp.MustCompile(`.*`), regexp.MustCompile(`^s`), regexp.MustCompile(`^(b|i|u|em)$`), regexp.MustCompile(`tag`),
 	regexp.MustCompile(`^(a|img|iframe|link)$`), regexp.MustCompile(`^[a-z]{1,3}$`),
+	// the same expressions compiled a second time (callers usually compile inline): distinct
+	// *regexp.Regexp values with identical source text
+	regexp.MustCompile(`^my-`), regexp.MustCompile(`.*`), regexp.MustCompile(`-y$`),
 }
 
 // sample names for each element pattern (used by conforming-document generation)
 var elReSamples = [][]string{{"my-x", "my-zzz"}, {"my-y", "x-a-y"}, {"x-a-y", "x-q"}, {"h1", "h3", "h6"}, {"zz", "my-x", "div", "custom"}, {"span", "sx", "section"},
-	{"b", "i", "u", "em"}, {"tag1", "tagged"}, {"a", "img", "link"}, {"b", "ul", "del", "qq"}}
+	{"b", "i", "u", "em"}, {"tag1", "tagged"}, {"a", "img", "link"}, {"b", "ul", "del", "qq"}, {"my-x", "my-zzz"}, {"zz", "my-x", "div", "custom"}, {"my-y", "x-a-y"}}
 
 var schemePool = []string{"http", "https", "mailto", "ftp", "data", "x-app", "javascript", "tel"}
 
@@ -150,6 +158,7 @@ type Op struct {
 	Match  string   `json:"match,omitempty"` // styles: "", "re", "enum", "fn"
 	Enum   int      `json:"enum,omitempty"`
 	Fn     int      `json:"fn,omitempty"` // callback index
+	Stmt   bool     `json:"stmt,omitempty"` // builder used as separate statements (results of Matching / AllowNoAttrs discarded) instead of one chain
 }
 
 type Spec struct {
@@ -193,6 +202,11 @@ func quoteList(l []string) string {
 }
 
 func (o Op) String() string {
+	if o.Stmt {
+		o2 := o
+		o2.Stmt = false
+		return o2.String() + " /*as separate statements*/"
+	}
 	switch o.Kind {
 	case "AllowAttrs":
 		s := fmt.Sprintf("AllowAttrs(%s)", quoteList(o.Attrs))
@@ -294,10 +308,17 @@ func genOp(t *rapid.T, kind string, o *SpecOpts) Op {
 	switch kind {
 	case "AllowElements", "SkipElementsContent", "AllowElementsContent":
 		op.Names = subset(t, els, 1, 4, "el")
+		if rapid.IntRange(0, 29).Draw(t, "emptyNames") == 0 {
+			op.Names = nil
+		}
 	case "AllowElementsMatching":
 		op.ElRe = rapid.IntRange(0, len(elRePool)-1).Draw(t, "elre")
 	case "AllowAttrs":
 		op.Attrs = subset(t, ats, 1, 3, "attr")
+		if rapid.IntRange(0, 19).Draw(t, "emptyAttrList") == 0 {
+			op.Attrs = nil // AllowAttrs() with an empty (e.g. configuration-driven) list
+		}
+		op.Stmt = rapid.IntRange(0, 5).Draw(t, "stmt") == 0
 		if rapid.Bool().Draw(t, "hasre") {
 			op.ValRe = rapid.IntRange(0, len(valRePool)-1).Draw(t, "valre")
 		}
@@ -311,6 +332,7 @@ func genOp(t *rapid.T, kind string, o *SpecOpts) Op {
 			op.ElRe = rapid.IntRange(0, len(elRePool)-1).Draw(t, "elre")
 		}
 	case "AllowStyles":
+		op.Stmt = rapid.IntRange(0, 5).Draw(t, "stmt") == 0
 		op.Attrs = subset(t, stylePropPool, 1, 3, "sprop")
 		op.Match = rapid.SampledFrom([]string{"", "", "re", "enum", "fn"}).Draw(t, "smatch")
 		switch op.Match {
@@ -406,11 +428,21 @@ func ApplyOp(p *bluemonday.Policy, o Op, log *Log) {
 		p.AllowElementsMatching(elRePool[o.ElRe])
 	case "AllowAttrs":
 		b := p.AllowAttrs(o.Attrs...)
-		if o.ValRe >= 0 {
-			b = b.Matching(valRePool[o.ValRe].re)
-		}
-		if o.NoAttr {
-			b = b.AllowNoAttrs()
+		if o.Stmt {
+			// statement style: the modifiers act on the builder they are called on
+			if o.ValRe >= 0 {
+				b.Matching(valRePool[o.ValRe].re)
+			}
+			if o.NoAttr {
+				b.AllowNoAttrs()
+			}
+		} else {
+			if o.ValRe >= 0 {
+				b = b.Matching(valRePool[o.ValRe].re)
+			}
+			if o.NoAttr {
+				b = b.AllowNoAttrs()
+			}
 		}
 		switch o.Scope {
 		case "els":
@@ -428,13 +460,24 @@ func ApplyOp(p *bluemonday.Policy, o Op, log *Log) {
 		}
 	case "AllowStyles":
 		b := p.AllowStyles(o.Attrs...)
-		switch o.Match {
-		case "re":
-			b = b.Matching(styleRePool[o.ValRe].re)
-		case "enum":
-			b = b.MatchingEnum(styleEnumPool[o.Enum]...)
-		case "fn":
-			b = b.MatchingHandler(styleFns[o.Fn].fn)
+		if o.Stmt {
+			switch o.Match {
+			case "re":
+				b.Matching(styleRePool[o.ValRe].re)
+			case "enum":
+				b.MatchingEnum(styleEnumPool[o.Enum]...)
+			case "fn":
+				b.MatchingHandler(styleFns[o.Fn].fn)
+			}
+		} else {
+			switch o.Match {
+			case "re":
+				b = b.Matching(styleRePool[o.ValRe].re)
+			case "enum":
+				b = b.MatchingEnum(styleEnumPool[o.Enum]...)
+			case "fn":
+				b = b.MatchingHandler(styleFns[o.Fn].fn)
+			}
 		}
 		switch o.Scope {
 		case "els":
@@ -606,6 +649,9 @@ func newModel() *Model {
 }
 
 func (m *Model) attrsOnEls(attrs []string, r rule, els ...string) {
+	if len(attrs) == 0 {
+		return // AllowAttrs() without names registers nothing (the element stays unknown)
+	}
 	for _, e := range els {
 		e = strings.ToLower(e)
 		m.els[e] = true
@@ -774,10 +820,14 @@ func (m *Model) apply(o Op) {
 			if o.NoAttr {
 				for _, e := range o.Names {
 					m.bare[strings.ToLower(e)] = true
+					m.els[strings.ToLower(e)] = true
 				}
 			}
 		case "elre":
 			re := elRePool[o.ElRe]
+			if len(o.Attrs) == 0 && !o.NoAttr {
+				break // nothing registered
+			}
 			m.elRes = append(m.elRes, re)
 			if m.reAttrs[re] == nil {
 				m.reAttrs[re] = map[string][]rule{}
